@@ -100,7 +100,7 @@ Definition int_hex2 (s : bytes) : res Z :=
 Inductive pcond := PReady | PCheck | PUnit | PBufNonEmpty | PHdr (tag : string).
 Inductive pstmt :=
 | PIf (c : pcond) (t e : list pstmt)
-| PProcess (err : bool) | PReset | PBreak | PDeliverInline | PDropOne.
+| PProcess (err : bool) | PReset | PAdvance | PBreak | PDeliverInline | PDropOne.
 Inductive ploop := LWhileTrue | LWhileReady | LOnce.
 Record pskel := { sk_loop : ploop; sk_body : list pstmt }.
 
